@@ -1,0 +1,21 @@
+//go:build verif
+
+// Contracts for the deductive checks under /verif (comment-only; compiled only with -tags verif).
+
+package keystore
+
+// Every field of a key file is attacker-controlled after tampering: whatever JSON values the
+// KDF parameters hold, parsing returns an error instead of panicking.
+//@ func ensureInt
+//@   nopanic[C20]
+
+//@ func getKDFKey
+//@   nopanic[C20]
+
+//@ func decryptKeyV3
+//@   requires keyProtected != nil
+//@   nopanic[C20]
+
+//@ func decryptKeyV1
+//@   requires keyProtected != nil
+//@   nopanic[C20]
